@@ -398,16 +398,31 @@ class Report:
 
 
 def strip_alloc(out):
-    """the implementation appends ` ;; A<peak>/<largest>` (measured allocation) which no model predicts"""
-    i = out.rfind(" ;; A")
-    return out[:i] if i >= 0 else out
+    """the implementation appends ` ;; A<peak>/<largest>` (measured allocation) and ` ;; V<hex>` (view dump, C15),
+    which no model line predicts"""
+    for marker in (" ;; V", " ;; A"):
+        i = out.rfind(marker)
+        if i >= 0:
+            out = out[:i]
+    return out
+
+
+def view_of(out):
+    """the C15 view dump of an implementation output line (parsed JSON) or None"""
+    i = out.rfind(" ;; V")
+    if i < 0:
+        return None
+    try:
+        return json.loads(bytes.fromhex(out[i + 5:]).decode())
+    except ValueError:
+        return None
 
 
 def alloc_of(out):
     i = out.rfind(" ;; A")
     if i < 0:
         return None
-    a, _, b = out[i + 5:].partition("/")
+    a, _, b = out[i + 5:].split(" ;; ")[0].partition("/")
     try:
         return int(a), int(b)
     except ValueError:
